@@ -82,7 +82,11 @@ impl Prop for C06 {
     }
 
     fn judge(&self, sc: &Scenario, mut st: Option<&mut Stats>) -> Option<Violation> {
-        judge_build(sc, Build::Std, &mut st).or_else(|| judge_build(sc, Build::Alloc, &mut None))
+        // the oracle reads accepted results only (rejecting is always safe here), so the
+        // no-alloc build's capacity rejections need no carve-out
+        judge_build(sc, Build::Std, &mut st)
+            .or_else(|| judge_build(sc, Build::Alloc, &mut None))
+            .or_else(|| judge_build(sc, Build::None, &mut None))
     }
 }
 
